@@ -492,6 +492,188 @@ func multiMuts(mcs []c11MC) []c11Mut {
 	return ms
 }
 
+// ------------------------------------------------------------------ multi: "the server is not in service"
+
+// Multis over one, two and three regions for the explicit server-exception cases (not part of
+// c11Setups, which C07 / C12 share).
+var c11SrvSetups = [][]c11MC{
+	{{'g', 0, false}},
+	{{'g', 0, false}, {'a', 0, false}},
+	{{'a', 0, false}, {'g', 0, false}, {'g', 0, false}},
+	{{'g', 0, false}, {'g', 1, false}},
+	{{'g', 0, false}, {'a', 1, false}, {'g', 0, false}},
+	{{'g', 0, false}, {'a', 1, false}, {'g', 2, false}},
+	{{'g', 0, false}, {'g', 1, false}, {'a', 2, false}, {'g', 0, false}},
+	{{'a', 0, false}, {'g', 1, true}, {'g', 2, false}, {'g', 1, false}},
+}
+
+// the classes of javaServerExceptions (region/client.go); excClass["connErr"] is the first
+var c11ServerClasses = []string{
+	"org.apache.hadoop.hbase.regionserver.RegionServerStoppedException",
+	"org.apache.hadoop.hbase.regionserver.RegionServerAbortedException",
+	"org.apache.hadoop.hbase.exceptions.MasterStoppedException",
+	"org.apache.hadoop.hbase.ipc.ServerNotRunningYetException",
+}
+
+func nbpClass(class, value string) *c11NBP {
+	return &c11NBP{name: sp(class), value: []byte(value), hasV: true}
+}
+
+// c11ExcFrame: a well-formed response for the set-up in which the region at (canonical) position p
+// fails as a whole with regs[p] (nil: its calls are answered one by one) and call i is answered with
+// the exception acts[i] (nil: success, one cell in the cellblock).
+func c11ExcFrame(mcs []c11MC, acts map[int]*c11NBP, regs map[int]*c11NBP) *c11Frame {
+	f := baseFrame()
+	pos, nreg := c11RegPositions(mcs)
+	f.rars = make([]c11Rar, nreg)
+	for p := range f.rars {
+		f.rars[p].exc = regs[p]
+	}
+	for i := range mcs {
+		if pos[i] < 0 || f.rars[pos[i]].exc != nil {
+			continue
+		}
+		if e := acts[i]; e != nil {
+			f.rars[pos[i]].roes = append(f.rars[pos[i]].roes, c11Roe{idx: u32(uint32(i) + 1), exc: e})
+			continue
+		}
+		f.rars[pos[i]].roes = append(f.rars[pos[i]].roes,
+			c11Roe{idx: u32(uint32(i) + 1), res: c11Res{present: true, acc: i32(1)}})
+		f.cbCells++
+	}
+	return f
+}
+
+// c11ServerExcCases: a server-class exception inside a multi response — for a whole region or for one
+// action, alone, next to successes and next to exceptions that are not server-class
+// (java.io.IOException with and without the "log is closed" text, NotServingRegion, retryable,
+// fatal) — plus the same shapes without it (the connection must stay) and responses that mention it
+// but are not accepted (short read, bad cell_block_meta, header exception, refused indices).
+func c11ServerExcCases() []*c11Case {
+	var cases []*c11Case
+	srv := func() *c11NBP { return nbpFor("connErr") }
+	others := []func() *c11NBP{
+		func() *c11NBP { return nbpClass("java.io.IOException", "x Cannot append; log is closed y") },
+		func() *c11NBP { return nbpClass("java.io.IOException", "other") },
+		func() *c11NBP { return nbpFor("nsre") },
+		func() *c11NBP { return nbpFor("retryable") },
+		func() *c11NBP { return nbpFor("fatal") },
+	}
+	for si, mcs := range c11SrvSetups {
+		pos, nreg := c11RegPositions(mcs)
+		var live []int
+		for i := range mcs {
+			if pos[i] >= 0 {
+				live = append(live, i)
+			}
+		}
+		n := 0
+		add := func(f *c11Frame) {
+			n++
+			cases = append(cases, &c11Case{op: "frame", kind: "multi", q: []int{1, 5}[(si+n)%2], calls: mcs, f: f})
+		}
+		allBut := func(skip int, e func() *c11NBP) map[int]*c11NBP {
+			m := map[int]*c11NBP{}
+			for _, i := range live {
+				if i != skip {
+					m[i] = e()
+				}
+			}
+			return m
+		}
+		regsBut := func(skip int, e func() *c11NBP) map[int]*c11NBP {
+			m := map[int]*c11NBP{}
+			for p := 0; p < nreg; p++ {
+				if p != skip {
+					m[p] = e()
+				}
+			}
+			return m
+		}
+		first, last := live[0], live[len(live)-1]
+		// per action: one call, every other call succeeds
+		for _, i := range live {
+			add(c11ExcFrame(mcs, map[int]*c11NBP{i: srv()}, nil))
+		}
+		// … every class of the table, with a value, with an empty value, without value
+		for _, cl := range c11ServerClasses {
+			add(c11ExcFrame(mcs, map[int]*c11NBP{first: nbpClass(cl, "s")}, nil))
+			add(c11ExcFrame(mcs, nil, map[int]*c11NBP{nreg - 1: nbpClass(cl, "")}))
+		}
+		add(c11ExcFrame(mcs, map[int]*c11NBP{last: {name: sp(excClass["connErr"])}}, nil))
+		add(c11ExcFrame(mcs, nil, map[int]*c11NBP{0: {name: sp(excClass["connErr"])}}))
+		// … next to exceptions that are not server-class
+		for _, o := range others {
+			for _, i := range []int{first, last} {
+				acts := allBut(i, o)
+				acts[i] = srv()
+				add(c11ExcFrame(mcs, acts, nil))
+			}
+		}
+		// every action
+		add(c11ExcFrame(mcs, allBut(-1, srv), nil))
+		// region-level: one region, the others succeed / fail as a whole / have every action fail
+		for p := 0; p < nreg; p++ {
+			add(c11ExcFrame(mcs, nil, map[int]*c11NBP{p: srv()}))
+			for _, o := range others[:3] {
+				regs := regsBut(p, o)
+				regs[p] = srv()
+				add(c11ExcFrame(mcs, nil, regs))
+			}
+			for _, o := range others[:2] {
+				add(c11ExcFrame(mcs, allBut(-1, o), map[int]*c11NBP{p: srv()}))
+			}
+		}
+		// every region
+		add(c11ExcFrame(mcs, nil, regsBut(-1, srv)))
+		// one action and the last region
+		add(c11ExcFrame(mcs, map[int]*c11NBP{first: srv()}, map[int]*c11NBP{nreg - 1: srv()}))
+		// a region result beyond the regions of the request
+		{
+			f := c11ExcFrame(mcs, nil, nil)
+			f.rars = append(f.rars, c11Rar{exc: srv()})
+			add(f)
+			f = c11ExcFrame(mcs, allBut(-1, others[1]), nil)
+			f.rars = append(f.rars, c11Rar{}, c11Rar{exc: srv()})
+			add(f)
+		}
+		// controls: the same shapes without a server-class exception
+		ioNoValue := func() *c11NBP { return &c11NBP{name: sp("java.io.IOException")} }
+		for _, o := range append(append([]func() *c11NBP(nil), others...), ioNoValue) {
+			add(c11ExcFrame(mcs, allBut(-1, o), nil))
+			add(c11ExcFrame(mcs, map[int]*c11NBP{first: o()}, nil))
+			add(c11ExcFrame(mcs, nil, regsBut(-1, o)))
+			add(c11ExcFrame(mcs, nil, map[int]*c11NBP{nreg - 1: o()}))
+		}
+		// mentioned, but the response is not accepted
+		for k := 0; k < 8; k++ {
+			f := c11ExcFrame(mcs, map[int]*c11NBP{first: srv()}, nil)
+			if k%2 == 1 {
+				f = c11ExcFrame(mcs, nil, map[int]*c11NBP{nreg - 1: srv()})
+			}
+			switch k / 2 {
+			case 0:
+				f.cbCells++ // a cell nobody reads: short read
+			case 1:
+				f.cbm = "plus1"
+			case 2:
+				f.exc = c11ExcList[2] // a NotServingRegion exception in the header decides
+			case 3:
+				// an index DeserializeCellBlocks refuses
+				f.rars[0].roes = append(f.rars[0].roes, c11Roe{idx: u32(uint32(len(mcs)) + 1), exc: srv()})
+			}
+			add(f)
+		}
+		{
+			// a region exception that comes with results
+			f := c11ExcFrame(mcs, nil, nil)
+			f.rars[0].exc = srv()
+			add(f)
+		}
+	}
+	return cases
+}
+
 // ------------------------------------------------------------------ region info, coalescing
 
 func c11InfoValues(tier string, rng *RNG) [][]byte {
@@ -837,6 +1019,8 @@ func genC11(tier string, seed uint64) []*c11Case {
 	for i, sc := range c11CoScripts(tier, rng) {
 		cases = append(cases, &c11Case{op: "coalesce", script: sc, allowPartial: i%7 == 6})
 	}
+	// (6) a server-class exception inside a multi response, spelled out
+	cases = append(cases, c11ServerExcCases()...)
 	// every other multi case: the calls' own contexts end after the request has been written and
 	// before the response is read (a caller that gave up): the response is decoded all the same
 	nm := 0
